@@ -140,3 +140,65 @@ def c14_2n(run):
     run.reached('native demonstration executed')
     if v.get('reproduced') is None:
         run.cur.notes.append('native demonstration of F8 could not be run: ' + str(v.get('error'))[-300:])
+
+
+# ----------------------------------------------------------------------------------------------------------------- C14-3
+@obligation('C14', 'C14-3 end_block hands CometBFT exactly the block\'s validator-update set and clears it in the state that is applied (so no update is sent twice or lost)')
+def c14_3(run):
+    import re
+    from obligations import c01
+    from mirsym import models as M
+    from mirsym.engine import ok
+    from vlib.actions import poll_result
+
+    def h_cometbft(ctx):
+        vs = ctx.ex.deref_val(ctx.st, ctx.args[0])
+        inner = vs.fields.get((None, 0)) if isinstance(vs, Obj) else None
+        items = list(ctx.ex.deref_val(ctx.st, inner).attrs['items']) if inner is not None else None
+        ctx.st.log.append(('to_cometbft', items))
+        okv = z3.Bool('conversion_ok')
+        return [(okv, (lambda s2: ok(M.new_vec('Vec<ValidatorUpdate>', [])))), (z3.Not(okv), (lambda s2: __import__('mirsym.engine', fromlist=['err']).err()))]
+    hooks = [h for h in c01.end_block_hooks() if h[1] is not None and 'try_into_cometbft' not in h[0].pattern] + [(re.compile(r'try_into_cometbft$'), h_cometbft)]
+    ex, W = A.engine(extra_hooks=hooks)
+    f = ex.find(r'^app::<impl at [^>]*>::end_block$')
+    run.bound(updates='0..2 validator updates accumulated in the block (arbitrary keys / powers)', state='arbitrary symbolic chain state', components='component end_block handlers are no-op oracles')
+    n_ok = 0
+    for k in (0, 1, 2):
+        w0 = initial_world()
+        ups = []
+        for j in range(k):
+            u = B.struct(ex, VU, power=z3.BitVec(f'update{j}_power', 32))
+            u.attrs['tag'] = f'u{j}'
+            ups.append((z3.BitVec(f'update{j}_addr', 160), u))
+        app = Obj('App')
+        st = ex.start(f, [B.cell(app), z3.BitVec('height', 64), B.cell(z3.BitVec('fee_recipient', 160))], world=dict(w0, validator_updates=list(ups), block_fees=[]))
+        st.pc += [ups[a][0] != ups[b][0] for a in range(k) for b in range(a + 1, k)] + [z3.ULT(z3.BitVec('height', 64), z3.BitVecVal(1 << 62, 64))]
+        for i, p in enumerate(run.explore(ex, st, poll=True, allow_havoc=(r'^Arguments::|fmt::', r'EndBlock', r'Default>::default'))):
+            lab = f'[{k} updates, path {i}]'
+            if p.kind != 'return':
+                run.prove(f'no panic {lab}', p.pc, z3.BoolVal(False), detail=p.info); continue
+            kind, r = poll_result(p)
+            conv = [e for e in p.log if e[0] == 'to_cometbft']
+            applies = [e for e in p.log if e[0] == 'apply']
+            clears = [j for j, e in enumerate(p.log) if e[0] == 'write' and e[1] == 'validator_updates']
+            run.sample({'updates': k, 'path': i, 'result': kind, 'converted': [len(c[1]) if c[1] is not None else None for c in conv], 'applies': len(applies), 'left_in_state': len(p.world['validator_updates'])})
+            if kind != 'Ok':
+                continue
+            n_ok += 1
+            claim = [z3.BoolVal(len(conv) == 1 and len(applies) == 1 and len(clears) == 1 and len(p.world['validator_updates']) == 0)]
+            if len(conv) == 1 and conv[0][1] is not None:
+                got = conv[0][1]
+                claim.append(z3.BoolVal(len(got) == k))
+                if len(got) == k:
+                    for (ka, ua), g in zip(ups, got):
+                        gk, gv = g if isinstance(g, tuple) else (None, g)
+                        gv = ex.deref_val(p, gv)
+                        claim.append(z3.BoolVal(isinstance(gv, Obj) and gv.attrs.get('tag') == ua.attrs['tag']))
+                        if gk is not None:
+                            claim.append(gk == ka)
+            if clears and applies:
+                claim.append(z3.BoolVal(clears[0] < p.log.index(applies[0])))
+            run.prove(f'Ok => the response is converted from exactly the accumulated update set, which is cleared once, before the single apply {lab}', p.pc, z3.And(*claim))
+    if not n_ok:
+        raise Inconclusive('vacuity: no Ok path')
+    run.require_reached(*run.cur.reach)
